@@ -242,6 +242,9 @@ def check_returned(ctx, spec, src, out, base, replaced=False):
 def run_case(ctx, case, rng):
   kind = (['same_tensor', 'same_buffer', 'across_subgraphs', 'tied_embedding'] * 3 + ['mixed_dtype_buffer'])[case % 13]
   k = 2 if kind in ('tied_embedding', 'mixed_dtype_buffer') else int(rng.integers(2, 5 if kind == 'same_tensor' else 4))
+  if kind == 'same_tensor' and rng.random() < 0.1:
+    k = int(rng.integers(9, 13))
+    ctx.count('tied_constant_with_9_or_more_consumers')
   spec, consumers = build(rng, kind, k)
   datasets = common.make_data(rng, spec)
   ok, why = common.admit(spec, datasets)
